@@ -174,10 +174,20 @@ cmd_move(const json_t *arg, json_t *stk, json_t *cur, json_t *lst)
 static bool
 cmd_trunc(const json_t *arg, json_t *stk, json_t *cur, json_t *lst)
 {
-    size_t i = json_integer_value(arg);
+    json_int_t i = json_integer_value(arg);
     size_t s;
 
-    for (s = json_array_size(cur); s > i; s--) {
+    if (!json_is_array(cur))
+        return false;
+
+    /* A negative count discards that many items from the end. */
+    if (i < 0)
+        i += json_array_size(cur);
+
+    if (i < 0)
+        return false;
+
+    for (s = json_array_size(cur); s > (size_t) i; s--) {
         if (json_array_remove(cur, s - 1) < 0)
             return false;
     }
